@@ -206,19 +206,18 @@ Print Assumptions C05_nonvacuous.
     (a mechanism, its rule-level copies, other mechanisms over the same endpoint) to the requests [h] against
     one JWK cache, the published key sets possibly changing in between.  The key-set request (url and header
     values) may be a template over the token's unverified issuer; the JWKS service answers per rendered
-    request.  Cache entries are keyed by (rendered url, kid, configured cache_ttl).
-    [f4 = true, f6 = false] is the code as it is.
+    request.  Cache entries are keyed by (rendered url + rendered templated headers, kid, configured cache_ttl).
+    [f4 = true, f6 = true] is the code as it is (fix: d20d7cd, fix: 4a30678).
     [judged_statelessly f1 f2 pre s r]: [r] is the answer of the cache-less authenticator to request [s]
     against the key set that is or was (during [pre]) published for the key-set request rendered for THAT
     request's token, validated with THAT request's settings — so a key obtained for one issuer's rendering is
     never used for another's —, and against the present key set if the request cannot be served from the cache.
-    It holds when no request has a template in a header only ([url_keyed]), and otherwise outside C05-F6. *)
+    It holds for every history. *)
 Theorem C05_cache_history_stateless : forall f1 f2 h pre s post r,
-  url_keyed h \/ guard_F6 f1 f2 h = false ->
   h = pre ++ s :: post ->
-  nth_error (run_history f1 f2 true false h) (length pre) = Some r ->
+  nth_error (run_history f1 f2 true true h) (length pre) = Some r ->
   judged_statelessly f1 f2 pre s r.
-Proof. exact history_stateless. Qed.
+Proof. exact history_stateless_fixed. Qed.
 Print Assumptions C05_cache_history_stateless.
 
 Theorem C05_judged_statelessly_unfold : forall f1 f2 pre s r,
@@ -231,19 +230,28 @@ Print Assumptions C05_judged_statelessly_unfold.
     against what is or was published for its own key-set request (now, if it cannot come from the cache); and
     always if it accepts it against all of those *)
 Theorem C05_cache_history_spec : forall h pre s post r,
-  url_keyed h \/ guard_F6 true true h = false ->
   h = pre ++ s :: post ->
-  nth_error (run_history true true true false h) (length pre) = Some r ->
+  nth_error (run_history true true true true h) (length pre) = Some r ->
   sane_clock (s_cf s) (s_now s) -> open_guards (s_cf s) (s_cred s) = false ->
   meets_spec pre s r.
-Proof. exact history_spec. Qed.
+Proof. exact history_spec_fixed. Qed.
 Print Assumptions C05_cache_history_spec.
 
-(** C05-F6 (open): a template in a HEADER value of the jwks endpoint does not reach the cache key (endpoint hash
-    over the unrendered templates + rendered url + kid + ttl): two issuers behind one url whose key sets share a
-    kid share the cache entry — after tenant-a's key has been cached a token naming tenant-b but signed with
-    tenant-a's key is accepted although the specification rejects it in every world, and tenant-b's own token is
-    refused.  With fixes/C05-F6.diff (rendered header values in the key) both are judged correctly, ... *)
+(** C05-F6 as it was before 4a30678 (a template in a HEADER value of the jwks endpoint did not reach the cache
+    key: endpoint hash over the unrendered templates + rendered url + kid + ttl): the statement held for
+    histories without a header-only template ([url_keyed]) or outside the guard ... *)
+Theorem C05_cache_pinned_F6_history_stateless : forall f1 f2 h pre s post r,
+  url_keyed h \/ guard_F6 f1 f2 h = false ->
+  h = pre ++ s :: post ->
+  nth_error (run_history f1 f2 true false h) (length pre) = Some r ->
+  judged_statelessly f1 f2 pre s r.
+Proof. exact history_stateless. Qed.
+Print Assumptions C05_cache_pinned_F6_history_stateless.
+
+(** ... and failed inside (pinned witness about the old keying): two issuers behind one url whose key sets share a
+    kid shared the cache entry — after tenant-a's key had been cached a token naming tenant-b but signed with
+    tenant-a's key was accepted although the specification rejects it in every world, and tenant-b's own token
+    was refused; the code as it is judges both correctly *)
 Theorem C05_F6_refuted :
   let h := [exc_hdr (exc_tok "tenant-a" "k1" 3); exc_hdr (exc_tok "tenant-b" "k1" 3); exc_hdr (exc_tok "tenant-b" "k1" 4)] in
   guard_F6 true true h = true /\
@@ -252,15 +260,6 @@ Theorem C05_F6_refuted :
   ~ meets_spec [exc_hdr (exc_tok "tenant-a" "k1" 3)] (exc_hdr (exc_tok "tenant-b" "k1" 3)) (Accepted "alice").
 Proof. exact F6_refuted. Qed.
 Print Assumptions C05_F6_refuted.
-
-(** ... and the statement holds for every history *)
-Theorem C05_cache_fixed_history_spec : forall h pre s post r,
-  h = pre ++ s :: post ->
-  nth_error (run_history true true true true h) (length pre) = Some r ->
-  (judged_statelessly true true pre s r) /\
-  (sane_clock (s_cf s) (s_now s) -> open_guards (s_cf s) (s_cred s) = false -> meets_spec pre s r).
-Proof. exact history_fixed_both. Qed.
-Print Assumptions C05_cache_fixed_history_spec.
 
 (** C05-F4 as it was before d20d7cd (the cached key was not re-validated, and the cache key covers neither
     validate_jwk nor the trust store): the statement held for histories validating alike or outside the guard ... *)
@@ -297,12 +296,12 @@ Print Assumptions C05_cache_transparent.
 
 (** non-vacuity: tenants sharing a kid behind an endpoint with a templated URL; a rotation *)
 Example C05_cache_examples :
-  run_history true true true false
+  run_history true true true true
     [exc_step true (exc_env 3 4) (exc_tok "tenant-a" "k1" 3);
      exc_step true (exc_env 3 4) (exc_tok "tenant-b" "k1" 3);
      exc_step true (exc_env 3 4) (exc_tok "tenant-b" "k1" 4)]
   = [Accepted "alice"; Failed ESignature; Accepted "alice"] /\
-  run_history true true true false
+  run_history true true true true
     [exc_step true (exc_env 3 4) (exc_tok "tenant-a" "k1" 3);
      exc_step true (exc_env 4 4) (exc_tok "tenant-a" "k1" 3);
      exc_step true (exc_env 4 4) (exc_tok "tenant-a" "k1" 4);
